@@ -167,15 +167,20 @@ static int op_hrt(toks_t *t)
   dc.err = my_err_init(&e2);
   jpeg_create_compress(&cc);
   jpeg_create_decompress(&dc);
-  if (setjmp(e1.jb) || setjmp(e2.jb)) {
+  cc.master->lossless = ll; dc.master->lossless = ll;
+  if (isDC) { cc.dc_huff_tbl_ptrs[0] = &h; dc.dc_huff_tbl_ptrs[0] = &h; }
+  else { cc.ac_huff_tbl_ptrs[0] = &h; dc.ac_huff_tbl_ptrs[0] = &h; }
+  if (!setjmp(e1.jb)) jpeg_make_c_derived_tbl(&cc, isDC, 0, &cd);
+  if (!setjmp(e2.jb)) jpeg_make_d_derived_tbl(&dc, isDC, 0, &dd);
+  if (e1.code || e2.code) {
     printf("R err %d\n", e1.code ? e1.code : e2.code);
+    /* the two validators must agree, except that the decoder accepts any AC symbol
+       and duplicated symbols (it never indexes by symbol) */
+    if (e1.code && !e2.code) printf("O ok\n");
+    else if (!e1.code && e2.code) printf("O fail hrt table accepted by jpeg_make_c_derived_tbl but rejected by jpeg_make_d_derived_tbl (err %d)\n", e2.code);
+    else printf("O ok\n");
     ok = 0;
   } else {
-    cc.master->lossless = ll; dc.master->lossless = ll;
-    if (isDC) { cc.dc_huff_tbl_ptrs[0] = &h; dc.dc_huff_tbl_ptrs[0] = &h; }
-    else { cc.ac_huff_tbl_ptrs[0] = &h; dc.ac_huff_tbl_ptrs[0] = &h; }
-    jpeg_make_c_derived_tbl(&cc, isDC, 0, &cd);
-    jpeg_make_d_derived_tbl(&dc, isDC, 0, &dd);
     memset(&src, 0, sizeof(src));
     src.fill_input_buffer = hrt_fill;
     dc.src = &src;
